@@ -21,7 +21,7 @@ PROP = "C20"
 
 BOUNDS = {
     "quick": "R=1 and R=2; limits: both finite (a<b symbolic), one-sided (-inf / +inf concrete), both infinite; k = 0..4 via '1','x','x**2','x**k'; evaluation on the three regions; normalised variant from get_density() and built directly on an un-normalised measure",
-    "thorough": "k up to 6, three-interval additivity with R=2",
+    "thorough": "k up to 6 for every kind of limits with R=2 (R=3 for finite limits, k<=4), three-interval additivity with R=2 and with k up to 6, evaluation / normalised variants with R=2 for one-sided limits and R=3",
 }
 ASSUMPTIONS = ["jax.scipy.stats.norm.cdf is abstracted to a field generator per argument with the axioms listed in gtverif/phi.py; norm.pdf is exact; far-tail floating-point accuracy (cancellation of the cdf difference) is a floating-point clause and outside",
                "the fundamental-theorem obligations differentiate the SYMBOLIC output of the real code (d Phi(t) = phi(t) dt); together with additivity and the two anchors they determine every F_k"]
@@ -337,11 +337,15 @@ def cases(tier, seed=0):
     out = [moments_case("ab", K), moments_case("abc", min(K, 4)), moments_case("lo", K), moments_case("hi", K), moments_case("split", K),
            moments_case("mu", K), moments_case("full", K), moments_case("ab", 2, R=2), moments_case("hi", 3, R=2)]
     if tier == "thorough":
-        out += [moments_case("abc", 4, R=2, timeout=2400), moments_case("split", 6, R=2, timeout=2400), moments_case("mu", 6, R=2, timeout=2400)]
+        out += [moments_case("abc", 4, R=2, timeout=2400), moments_case("split", 6, R=2, timeout=2400), moments_case("mu", 6, R=2, timeout=2400),
+                moments_case("ab", 6, R=2, timeout=2400), moments_case("lo", 6, R=2, timeout=2400), moments_case("hi", 6, R=2, timeout=2400),
+                moments_case("full", 6, R=2, timeout=2400), moments_case("abc", 6, timeout=2400), moments_case("ab", 4, R=3, timeout=2400)]
     for variant in ("measure", "pdf_from_measure", "pdf_direct"):
         for limits in ("ab", "lo", "hi"):
             out.append(call_case(variant, limits))
         out.append(call_case(variant, "ab", R=2))
+        if tier == "thorough":
+            out += [call_case(variant, "lo", R=2, timeout=1200), call_case(variant, "hi", R=2, timeout=1200), call_case(variant, "ab", R=3, timeout=1200)]
         for pattern in ("own", "out1", "shared"):
             out.append(elementwise_case(variant, pattern))
     return out
